@@ -548,7 +548,10 @@ EXOTIC = ["\u0661\u0662", "\x0c5", "\uff15", "\u00a05", "5\u2009", "1_0", "0x1f"
           "24:00:00", "23:59:60", "00:00:00.", "00:00:00.9999999", "12:00:00+14:01", "12:00:00+15:00", "12:00:00+01:75",
           "12:00:00-14:00", "12:00:00+14:00", "12:00:00-00:00", "12:00:00z", "2000-01-01T24:00:00", "0000-01-01",
           "2000-02-30", "1900-02-29", "2000-02-29", "2100-02-29Z", "12000-01-01", "-2000-01-01", "2000-1-1", "2000-01-01+13:00",
-          "2000-01-01\n", "2000-01-01\n\n", " 2000-01-01", "0000", "12345", "99999999999-01-01", "2147483648-12-31Z", "99999999999-01-01T00:00:00",
+          "2000-01-01\n", "2000-01-01\n\n", " 2000-01-01", "0000", "12345", "24:30:00", "24:00:01", "24:00:00.000001", "24:00:00.0", "24:00:00Z", "24:00:00+14:00", "24:01:00-05:00",
+          "2020-01-31T24:30:00", "2020-01-31T24:00:00.5", "2020-01-31T24:00:01", "2020-12-31T24:00:00", "9999-12-31T24:00:00",
+          "2020-02-29T24:00:00+14:00", "2020-02-28T24:00:00.000Z", "25:00:00", "2020-01-01T25:00:00",
+          "99999999999-01-01", "2147483648-12-31Z", "99999999999-01-01T00:00:00",
           "10000-01-01T12:00:00+01:00", "4294967296", "99999999999-05", "12000-02-30", "100000-01", "-0001", "999", "2020\n", "--02-30", "--02-29",
           "--04-31", "--13-01", "---00", "---32", "---31+14:00", "--00", "--12Z", "--12--", "aGk=", "aGl=", "aGk", "a Gk =",
           "!!aGk=", "aGk=\n", "aQ==", "aR==", "a===", "====", "YWJj", "YWJj YWJj", "=aGk", "ab cd", "AB", "aB", "abc", "0g",
@@ -599,6 +602,17 @@ def variants(rng, name, s):
     if name in ("Date", "DateTime", "GYear", "GYearMonth") and re.match(r"\d{4}", s):
         # XSD allows more than four year digits; datetime ends at 9999 - such literals must be refused with ValueError
         out += [y + s[4:] for y in (rng.choice(LONG_YEARS), rng.choice(LONG_YEARS), "0" + s[:4], "-" + s[:4])]
+    if name in ("Time", "DateTime"):
+        # hour 24: XSD knows exactly 24:00:00(.0+)? (the end of the day = 00:00:00 of the next day); every other
+        # time of day with hour 24 is no literal
+        m = re.search(r"(\d\d):(\d\d):(\d\d)(\.\d+)?", s)
+        if m:
+            mm, ss = m.group(2), m.group(3)
+            if mm == "00" and ss == "00":
+                mm = "30"
+            out += [s[:m.start()] + t + s[m.end():] for t in
+                    ("24:00:00", "24:00:00.000", "24:%s:%s" % (mm, ss), "24:00:%s" % (ss if ss != "00" else "01"),
+                     "24:00:00.5", "24:00:00.000001", "24:59:59.999999", "25:00:00")]
     if name in ("Time", "DateTime") and "." not in s:
         out += [re.sub(r"(\d\d:\d\d:\d\d)", r"\1.5", s, 1), re.sub(r"(\d\d:\d\d:\d\d)", r"\1.0000001", s, 1)]
     if s.endswith("Z"):
@@ -715,6 +729,104 @@ def oracle_property_json(chk, name, v, s):
             return f"Property read back as {p2.value_type.__name__} {p2.value!r}"
     except Exception as e:  # noqa
         return f"Property JSON round trip raised {type(e).__name__}: {e}"
+    return xml_holder_failure("Property", p, name, {"value": s})
+
+
+def _den_tz(z):
+    if not z:
+        return [0, 0]
+    if z == "Z":
+        return [1, 0]
+    return [1, (int(z[1:3]) * 60 + int(z[4:6])) * (-1 if z[0] == "-" else 1)]
+
+
+_ZONE = r"(Z|[+-]\d\d:\d\d)?"
+_DEN_RE = {
+    "Time": re.compile(r"(\d\d):(\d\d):(\d\d)(\.\d+)?" + _ZONE),
+    "DateTime": re.compile(r"(\d{4})-(\d\d)-(\d\d)T(\d\d):(\d\d):(\d\d)(\.\d+)?" + _ZONE),
+    "Date": re.compile(r"(\d{4})-(\d\d)-(\d\d)" + _ZONE),
+    "GYearMonth": re.compile(r"(\d{4})-(\d\d)" + _ZONE),
+    "GYear": re.compile(r"(\d{4})" + _ZONE),
+    "GMonthDay": re.compile(r"--(\d\d)-(\d\d)" + _ZONE),
+    "GDay": re.compile(r"---(\d\d)" + _ZONE),
+    "GMonth": re.compile(r"--(\d\d)" + _ZONE),
+}
+
+
+def xsd_denotation(name, lit):
+    """what a VALID literal of the date/time family (or xs:boolean) denotes, as the observation enc_value gives for it;
+    written from XML Schema Part 2 independently of the SDK.  None: not evaluated here (other types, years the Python
+    types cannot hold).  Fraction digits beyond microseconds are cut off (the Python types end there)."""
+    t = collapse(lit)
+    if name == "Boolean":
+        return [1 if t in ("true", "1") else 0]
+    rx = _DEN_RE.get(name)
+    m = rx.fullmatch(t) if rx else None
+    if not m:
+        return None
+    g = m.groups()
+
+    def us(fr):
+        return int((fr[1:] + "000000")[:6]) if fr else 0
+    if name == "Time":
+        h, mi, sec = int(g[0]), int(g[1]), int(g[2])
+        return [0 if h == 24 else h, mi, sec, us(g[3])] + _den_tz(g[4])       # 24:00:00 is 00:00:00
+    if name == "DateTime":
+        y, mo, dd, h, mi, sec = (int(x) for x in g[:6])
+        if y == 0:
+            return None
+        if h == 24:                                                          # the first instant of the following day
+            try:
+                nd = datetime.date(y, mo, dd) + datetime.timedelta(days=1)
+            except (ValueError, OverflowError):
+                return None
+            y, mo, dd, h = nd.year, nd.month, nd.day, 0
+        return [y, mo, dd, h, mi, sec, us(g[6])] + _den_tz(g[7])
+    return [int(x) for x in g[:-1]] + _den_tz(g[-1])
+
+
+_XML_CHARS = re.compile("[\t\n\r\x20-\ud7ff\ue000-\ufffd\U00010000-\U0010ffff]*")
+
+
+def xml_holder_failure(kind, h, tname, lits):
+    """the XML side of a typed holder: valueType and value/min/max texts carry the type's name and exactly the
+    literals `lits` (slot -> xsd_repr), and reading the element back gives the same type and equal values"""
+    import io
+    from lxml import etree
+    from basyx.aas.adapter.xml import xml_serialization as xs_, xml_deserialization as xd_
+    xsname = dict((n, x) for _, n, x in TYPES)[tname]
+    ser = {"Property": xs_.property_to_xml, "Range": xs_.range_to_xml, "Qualifier": xs_.qualifier_to_xml,
+           "Extension": xs_.extension_to_xml}[kind]
+    con = {"Property": xd_.XMLConstructables.PROPERTY, "Range": xd_.XMLConstructables.RANGE,
+           "Qualifier": xd_.XMLConstructables.QUALIFIER, "Extension": xd_.XMLConstructables.EXTENSION}[kind]
+    try:
+        el = ser(h)
+        data = etree.tostring(el)
+    except ValueError as e:
+        if any(not _XML_CHARS.fullmatch(l) for l in lits.values()):
+            return None          # a character XML cannot carry: refused by the XML layer (AASd-130 is another property)
+        return f"{kind} (xs:{xsname}) cannot be written as XML: ValueError: {e}"
+    except Exception as e:  # noqa
+        return f"{kind} (xs:{xsname}) cannot be written as XML: {type(e).__name__}: {e}"
+    ns = "{https://admin-shell.io/aas/3/0}"
+    vt = el.find(ns + "valueType")
+    if vt is None or vt.text != "xs:" + xsname:
+        return f"{kind} announces xs:{xsname} but its XML carries valueType {None if vt is None else vt.text!r}"
+    for sl in (("min", "max") if kind == "Range" else ("value",)):
+        e2 = el.find(ns + sl)
+        got = None if e2 is None else (e2.text or "")
+        if got != lits.get(sl):
+            return f"{kind} (xs:{xsname}) writes {sl}={got!r} into XML, expected {lits.get(sl)!r}"
+    try:
+        h2 = xd_.read_aas_xml_element(io.BytesIO(data), con, failsafe=False)
+    except Exception as e:  # noqa
+        return f"{kind} (xs:{xsname}): its own XML {data[-120:]!r} cannot be read: {type(e).__name__}: {e}"
+    if h2.value_type is not h.value_type:
+        return f"{kind} (xs:{xsname}) read back from XML announces {h2.value_type!r}"
+    for sl in (("min", "max") if kind == "Range" else ("value",)):
+        a, b = getattr(h, sl), getattr(h2, sl)
+        if (a is None) != (b is None) or (a is not None and not values_equal(tname, b, a)):
+            return f"{kind} (xs:{xsname}): {sl} {a!r} comes back from XML as {b!r}"
     return None
 
 
@@ -750,6 +862,9 @@ def literal_failure(name, lit):
         return f"from_xsd({lit!r}, {name}) accepted a literal outside the lexical/value space of the type: {v!r}"
     if name in INT_BOUNDS and int(v) != int(collapse(lit)):
         return f"from_xsd({lit!r}, {name}) = {v!r}: not the denoted integer"
+    den = xsd_denotation(name, lit)
+    if den is not None and [0] + den != obs:
+        return f"from_xsd({lit!r}, {name}) = {v!r} {obs[1:]}: not the value the literal denotes {den}"
     if not type_ok(name, v):
         return f"from_xsd({lit!r}, {name}) returned a {type(v).__name__}"
     return None
@@ -1066,7 +1181,7 @@ def holder_state_failure(kind, h):
     for sl, _ in slots:
         if doc.get(sl) != lits.get(sl):
             return f"{kind} (xs:{xs}) serialises {sl}={doc.get(sl)!r}, expected {lits.get(sl)!r}"
-    return None
+    return xml_holder_failure(kind, h, tname, lits)
 
 
 def run_holder_script(kind, script):
